@@ -174,7 +174,8 @@ impl DcpsDomainParticipant {
                                                 .parse()
                                                 .expect("valid number"),
                                         ) {
-                                            continue 'data_readers;
+                                            // Filtered out: go on with the next received change
+                                            continue;
                                         }
                                     }
                                     crate::xtypes::dynamic_type::TypeKind::INT64 => todo!(),
@@ -196,7 +197,8 @@ impl DcpsDomainParticipant {
                                             member_value,
                                             &content_filtered_topic.expression_parameters[0],
                                         ) {
-                                            continue 'data_readers;
+                                            // Filtered out: go on with the next received change
+                                            continue;
                                         }
                                     }
                                     crate::xtypes::dynamic_type::TypeKind::ALIAS => todo!(),
